@@ -144,6 +144,25 @@ def check(ctx):
             detail = f"presyn {pp!r}, postsyn {qp!r}, weight rank {wr}"
         ctx.ob("C05.a", f"{c.name}: receptive views broadcast against the weight (rank = weight rank + batch + receptive)", ok, detail, pre.where)
 
+    # merged parameter axes: the selector flattens the delay exactly as forward flattens the weight
+    for c in classes:
+        sel = c.find_prop("selector", "get")
+        sp, _ = _ret_pattern(P, sel)
+        fw = c.find_method("forward")
+        if not sp:
+            continue
+        so = einops_alg.Pattern(sp)
+        merged_sel = [g for g in so.output.groups if len(g) > 1]
+        flats = []
+        for x in P.calls_in(fw):
+            if dotted(x.func) == "ein.rearrange" and x.args and dotted(x.args[0]) == "self.weight":
+                pw = einops_alg.Pattern(_pattern_of(x))
+                if pw.inputs[0].groups == so.inputs[0].groups:
+                    flats += [g for g in pw.output.groups if len(g) > 1]
+        if merged_sel or flats:
+            ok = merged_sel == flats and len(flats) == 1
+            ctx.ob("C05.a", f"{c.name}: selector merges the delay axes in the order forward merges the weight axes", ok,
+                   f"selector {merged_sel}, weight {flats}" + ("" if ok else " — each synapse would be read with another kernel tap's delay"), sel.where)
     # ---------------- (b) map structure
     dense = P.cls("LinearDense").methods["forward"]
     ctx.touch(dense)
@@ -294,4 +313,18 @@ def spec(self, inputs, kwargs):
         ctx.ob("C05.d", f"{f.short} writes {what}", ok,
                "the mixin setter (reached through the overriding masked setter on LinearLateral)" if ok else
                f"`{ast.unparse(node)[:60]}` writes a connection parameter outside the mixin setters: a lateral connection's mask is bypassed", P.loc(f, node), node)
+    # any `.data` store / in-place tensor method outside the storage classes must be one of the mixin setters: a write that
+    # goes around the property (e.g. `getattr(module, p).data = ...` in the updater) bypasses the lateral mask
+    datas = []
+    for f in P.funcs:
+        if f.module.name.endswith("core.infrastructure") or ".learn.classifiers" in f.module.name:
+            continue
+        for n_ in walk_own(f.node):
+            if isinstance(n_, ast.Attribute) and n_.attr == "data" and isinstance(n_.ctx, ast.Store):
+                datas.append((f, n_))
+    for f, node in datas:
+        ok = f.kind == "setter" and f.cls is not None and f.cls.name in ("WeightMixin", "WeightBiasMixin", "WeightBiasDelayMixin")
+        ctx.ob("C05.d", f"{f.short}: `.data` store `{ast.unparse(node)}`", ok,
+               "mixin setter" if ok else f"`{ast.unparse(node)} = ...` writes a parameter's data outside the connection's property setters: "
+               f"an assignment through this path is not masked on a lateral connection", P.loc(f, node), node)
     ctx.assume("F.linear, F.unfold, F.fold, torch.matmul and einops implement their documented semantics")
